@@ -761,7 +761,7 @@ def distance_matrix(s, block=None, compact=False, parallel=False,
         else:
             fn = _distance_c_with_params
         with mp.Pool() as p:
-            dists = p.map(fn, [(s[r], s[c], dist_opts) for c, r in zip(*idxs)])
+            dists = p.map(fn, [(s[r], s[c], dist_opts) for r, c in zip(*idxs)])
 
     elif settings.use_c and not parallel:
         logger.info("Compute distances in C (parallel=No)")
@@ -779,7 +779,7 @@ def distance_matrix(s, block=None, compact=False, parallel=False,
         else:
             fn = _distance_with_params
         with mp.Pool() as p:
-            dists = p.map(fn, [(s[r], s[c], dist_opts) for c, r in zip(*idxs)])
+            dists = p.map(fn, [(s[r], s[c], dist_opts) for r, c in zip(*idxs)])
 
     elif not settings.use_c and not parallel:
         logger.info("Compute distances in Python (parallel=No)")
